@@ -181,6 +181,16 @@ TEXT["C04"] = dict(
     design_ref="5 (C04), 6",
 )
 
+TEXT["C14"] = dict(
+    category="exploration",
+    technique="seeded simulation: generated Trio programs under a real trio.run whose batch order is seeded from the tape; worker threads parked on locks; parallel walk of Trio's own task tree and the extracted tree",
+    text="Generated task trees (depth <= 3, fan-out <= 3, 0-2 nested nurseries per task, bodies ending in plain statements / try-except / try-finally / conditional return / cancelled scope so tasks block in the body or in __aexit__; "
+    "to_thread.run_sync <-> from_thread.run ping-pong of depth 0-3) run under real Trio with seeded scheduling; at quiescence a controller task extracts the root task recursively and compares with task.child_nurseries / nursery.child_tasks "
+    "(once each, nesting order, identities, exiting flag, thread frames in place of the wait and back into the task), with no error and no InspectionWarning; without recursion children must be stubs.",
+    note="Trusted: trio's _r / _ALLOW_DETERMINISTIC_SCHEDULING seam; the world's record of where each task blocks; 3.12 only.",
+    design_ref="5 (C14)",
+)
+
 PENDING_REASON = "check not built yet in this round (work in progress; see DESIGN.md section 5 for the planned simulation)"
 
 ALL = ["C%02d" % i for i in range(1, 21)]
